@@ -54,6 +54,23 @@ def gen_history(rng, hid, length):
                     fds.append(nextfd)       # data calls on a directory descriptor
                 nextfd += 1
             continue
+        if rng.random() < 0.07:
+            # the NAME of a (probably open) file goes away or is given to another file while descriptors hold the file:
+            # reads, writes, seeks and fd_filestat_get keep working on the file that was opened (the temporary-file idiom,
+            # log rotation, atomic replacement)
+            name = rng.choice(NAMES)
+            if rng.random() < 0.5:
+                calls.append({"call": "unlink", "abi": abi(), "dirfd": 3, "path": name, "parent": os.path.dirname(name)})
+                existing.discard(name)
+            else:
+                other = rng.choice([x for x in NAMES if x != name])
+                calls.append({"call": "rename", "abi": abi(), "dirfd": 3, "fd": 3, "path": name, "path2": other,
+                              "parent": os.path.dirname(name), "parent2": os.path.dirname(other)})
+                if name in existing:
+                    existing.discard(name)
+                    existing.add(other)
+            calls.append({"call": rng.choice(["filestat", "filestat", "tell", "read"]), "abi": abi(), "fd": rng.choice(fds), "lens": [3]})
+            continue
         fd = rng.choice(fds)
         many = rng.random() < 0.12         # long scatter/gather vectors (short pieces): 17..60 segments
         if many and r < 0.72:
@@ -99,16 +116,23 @@ def sig(c, why):
     return "%s:%s" % (k, why.split(":")[0])
 
 
-def run_all(v, hists, wd, tier, pid="C12", ls_after=("open", "write", "pwrite")):
+def run_all(v, hists, wd, tier, pid="C12", ls_after=("open", "write", "pwrite", "unlink", "rename")):
     exp, st = wasi.model_histories(hists, wd)
     exe = wasi.build_driver(wd)
     compared = 0
 
     def one(h):
         return wasi.run_history(exe, h["calls"], wd, h["id"], setup=h["setup"], ls_after=ls_after)
-    results = pmap(one, hists)
+    # the tracing configuration (-DWASI_TRACE_ENABLED=1, what one builds to debug a guest) answers every call the same way;
+    # its additional statements run under the same ASan observer
+    exe_tr = wasi.build_driver(wd, name="wasidrv-trace", extra=("-DWASI_TRACE_ENABLED=1",))
+    sub = hists[::4] if tier == "quick" else hists
+
+    def one_tr(h):
+        return wasi.run_history(exe_tr, h["calls"], wd, h["id"] + "-tr", setup=h["setup"], ls_after=ls_after)
+    results = pmap(one, hists) + pmap(one_tr, sub)
     distinct = set()
-    for h, (recs, index, err, rc, sb) in zip(hists, results):
+    for h, (recs, index, err, rc, sb) in zip(list(hists) + list(sub), results):
         ns = len(h["setup"])
         by_i = {r["i"]: r for r in recs if "i" in r}
         poisoned = False
